@@ -192,7 +192,7 @@ func (g *smallGen) next(m *ttlModel, now int64, step int) cop {
 		if r.chance(0.3) {
 			return cop{Op: "HasCallback"}
 		}
-		return cop{Op: "SetCallback", CbID: r.intn(4), CbMode: pick(r, []string{"", "", "", "once", "adv", "adv"})}
+		return cop{Op: "SetCallback", CbID: r.intn(4), CbMode: pick(r, []string{"", "", "", "once", "adv", "adv", "probe", "probe"})}
 	}
 }
 
